@@ -593,6 +593,14 @@ func (vt *Model) Draw(win vaxis.Window) {
 			if cell.Grapheme == "" {
 				cell.Grapheme = " "
 			}
+			if col+w > vt.width() {
+				// The right half of this character was cut off (eg by
+				// an insertion). It can't be shown without drawing
+				// outside of the window
+				cell.Grapheme = " "
+				cell.Width = 1
+				w = 1
+			}
 
 			win.SetCell(col, row, cell.Cell)
 			if w == 0 {
